@@ -33,6 +33,20 @@ package connectors
 // the server's last partial result into the global result (the shutdown the
 // server asks for with '.syn close connection' goes to the embedded base
 // handler and flushes nothing).
+// Start does not return before the handler has been shut down: its caller
+// (baseClient.startConnection, then MaprClient.Start) reports the final result
+// next. The goroutine it started shuts the handler down too, but nothing makes
+// Start wait for that, so Start does it itself once the session is over.
+//@ func (*ServerConnection).Start
+//@   ghost-init g_handlerShut == 0
+//@   ghost-init g_sessionStarted == 0
+//@   at-call Start$1 effect g_sessionStarted == 1
+//@   at-call Handler.Shutdown effect g_handlerShut == g_handlerShut + 1
+//@   ensures [handler-shut-down-before-returning] implies(g_sessionStarted == 1, g_handlerShut >= 1)
+//@ func (*Serverless).Start
+//@   ghost-init g_handlerShut == 0
+//@   at-call Handler.Shutdown effect g_handlerShut == g_handlerShut + 1
+//@   ensures [handler-shut-down-before-returning] g_handlerShut >= 1
 //@ func (*ServerConnection).handle
 //@   callers-only (*ServerConnection).session
 //@   ghost-init g_handlerShut == 0
